@@ -189,7 +189,8 @@ def run_C07(tier, seed, replay=None, procs=16):
     st_spec, nsc = _spec_check(max_pts=3 if full else 2)
     objs = [o for o in FS.OBJECTIVES if o != "none"]
     if not full:
-        objs = ["makespan", "flowtime", "start_latest", "max_expr", "min_bounded", "max_bounded", "cost", "two_min", "two_max"]
+        objs = ["makespan", "flowtime", "start_latest", "max_expr", "min_bounded", "max_bounded", "cost", "two_min", "two_max",
+                "max_buffer", "min_buffer"]
     ps = number([replay["problem"]]) if replay else number(FS.pool(objs, shapes=("plain", "optional", "select", "variable", "buffer", "single")))
     V, st_enum = SE.prepare(ps)
     cases = []
